@@ -280,7 +280,7 @@ func runShard(bin string, shard int, phase string, res *result, mu *sync.Mutex) 
 			sig := kind + ":" + fatalSite(stderr2)
 			res.viols = append(res.viols, violation{ID: lastBegin, Kind: kind, Sig: sig, Detail: detail + "\n(reproduced when the case was run alone)"})
 		} else {
-			res.inconclusive = append(res.inconclusive, fmt.Sprintf("case %q: %s once, but not when run alone", lastBegin, kind))
+			res.inconclusive = append(res.inconclusive, fmt.Sprintf("case %q: %s once (%s), but not when run alone", lastBegin, kind, firstLine(detail)))
 		}
 		mu.Unlock()
 		after = lastBegin
@@ -818,4 +818,11 @@ func doReplay() int {
 	}
 	fmt.Printf("OK property=%s replayed case %s: no violation on the current tree\n", prop, doc.CaseID)
 	return 0
+}
+
+func firstLine(s string) string {
+	if i := strings.IndexByte(s, '\n'); i >= 0 {
+		return s[:i]
+	}
+	return s
 }
